@@ -153,6 +153,39 @@ def gen(tier, rng, boost=1):
                 for bad32 in ([0xD800], [0x110000], [0xFFFFFFFF], [0x80000030], [0x130], [0x10FFFF, 0x35]):
                     ops.append(f"num.parse {t} 32 {units('32', pre + ustr(lit) + bad32)}")
                     ops.append(f"num.parse {t} w {units('w', pre + bad32 + ustr(lit))}")
+    # wide characters whose LOW BYTE is a syntactically significant ASCII character (blank, sign, dot, exponent, digit, t/f):
+    # a parser that narrows 16/32-bit units to char sees them as syntax; they must end / invalidate the literal instead
+    sig = [0x20, 0x09, 0x2B, 0x2D, 0x2E, 0x65, 0x45, 0x30, 0x31, 0x35, 0x39, 0x74, 0x54, 0x66]
+    for b in sig:
+        for hi in (0x100, 0x2000, 0x3000, 0xFF00, 0x10000, 0x10FF00):
+            u = hi + b
+            for t in ("i32", "u8", "f64"):
+                for lit in ("12", "-7", "1.5"):
+                    for units_ in ([u] + [ord(c) for c in lit], [ord(lit[0]), u] + [ord(c) for c in lit[1:]], [ord(c) for c in lit] + [u],
+                                   [0x20, u] + [ord(c) for c in lit]):
+                        if u < 0x10000:
+                            ops.append(f"num.parse {t} 16 {units('16', units_)}")
+                        ops.append(f"num.parse {t} {rng.choice(['32', 'w'])} {units('32', units_)}")
+            for wd in ("1", "true", "0"):
+                us = [ord(c) for c in wd]
+                for units_ in ([u] + us, us + [u], [0x20, u] + us):
+                    if u < 0x10000:
+                        ops.append(f"num.bool 16 {units('16', units_)}")
+                    ops.append(f"num.bool {rng.choice(['32', 'w'])} {units('32', units_)}")
+    # overlong literals (beyond any fixed-size scratch buffer: 63..70, 130, 400 characters) in all four widths
+    for n in (62, 63, 64, 65, 66, 70, 130, 400):
+        long_cases = ["0" * n + "7", "1" + "0" * n, "0" * (n - 5) + "65536", "0" * (n - 3) + "255", "7" + "0" * (n // 2) + "." + "5" * (n // 2),
+                      "0" * n + ".5", " " * 3 + "0" * n + "9", "-" + "0" * n + "1", "0." + "0" * n + "1", "1" + "0" * n + "e-" + str(n)]
+        for lit in long_cases:
+            for t in ("i32", "u16", "u8", "i64", "f64", "f32"):
+                for w in WIDTHS:
+                    ops.append(f"num.parse {t} {w} {units(w, ustr(lit))}")
+    # leading blanks before a fractional literal for an integer target (the fraction rule must not depend on the blanks)
+    for bl in (" ", "\t", "  ", " \t ", "     "):
+        for lit in ("3.5", "-12.25", "200.75", "0.0", "7.", "7.x", "1.e5"):
+            for t in ("i32", "u8", "i8", "u64"):
+                for w in WIDTHS:
+                    ops.append(f"num.parse {t} {w} {units(w, ustr(bl + lit + rng.choice(['', ' ', '  '])))}")
     # ---- bool
     for wd in BOOL_WORDS:
         for b in ("", " ", "\t ", "  "):
